@@ -193,7 +193,8 @@ def tags_constant(ctx):
 
 
 def _tag_loops(fnode):
-    return [n for n in walk_function(fnode) if isinstance(n, ast.For) and isinstance(n.iter, ast.Name) and n.iter.id == "TAGS_TO_REMOVE" and isinstance(n.target, ast.Name)]
+    # in whatever order: sorted(TAGS_TO_REMOVE), list(...), the set itself
+    return [n for n in walk_function(fnode) if isinstance(n, ast.For) and u(util.strip_order_wrappers(n.iter)) == "TAGS_TO_REMOVE" and isinstance(n.target, ast.Name)]
 
 
 def r2(ctx):
@@ -231,6 +232,12 @@ def r2(ctx):
         ctx.require(call_loops, "no loop over the record's samples in run_unphase")
         for cl in call_loops:
             names = [t.id for t in ast.walk(cl.target) if isinstance(t, ast.Name)]
+            # a loop over sample names or indices reaches the call through a subscript of the record's samples
+            for n_ in ast.walk(cl):
+                if isinstance(n_, ast.Assign) and len(n_.targets) == 1 and isinstance(n_.targets[0], ast.Name) and isinstance(n_.value, ast.Subscript) and u(n_.value.value) == "%s.samples" % rec and u(n_.value.slice) in names:
+                    names.append(n_.targets[0].id)
+            whole = u(cl.iter) in ("%s.samples.values()" % rec, "%s.samples.items()" % rec, "%s.samples" % rec, "%s.samples.keys()" % rec, "range(len(%s.samples))" % rec, "list(%s.samples.values())" % rec, "enumerate(%s.samples.values())" % rec)
+            ctx.ob(run.qual, "every-call-of-the-record-visited", True if whole else None, run.loc(cl), "the loop runs over all calls of the record" if whole else "cannot tell whether `%s` covers every call of the record" % u(cl.iter)[:60])
             head = cfg.node_of(cl)
 
             def clears(n):
@@ -289,7 +296,7 @@ def record_loops(run):
 def _loop_var_over_tags(store_node, name):
     n = getattr(store_node, "parent", None)
     while n is not None:
-        if isinstance(n, ast.For) and isinstance(n.target, ast.Name) and n.target.id == name and isinstance(n.iter, ast.Name) and n.iter.id == "TAGS_TO_REMOVE":
+        if isinstance(n, ast.For) and isinstance(n.target, ast.Name) and n.target.id == name and u(util.strip_order_wrappers(n.iter)) == "TAGS_TO_REMOVE":
             return True
         n = getattr(n, "parent", None)
     return False
